@@ -66,7 +66,14 @@ func cmdDomains(args []string) int {
 								{Dom: mkDomain(domAttester, 2), BBR: fill32(1), Src: &Checkpoint{epoch, fill32(0)}, Tgt: &Checkpoint{epoch + 1, fill32(1)}}}},
 						{Kind: KPropose, Client: "client1", IP: src, Addrs: []Addr{g.addrFor(a)},
 							Props: []PropData{{Dom: dom, Slot: epoch, Pidx: 1, Parent: fill32(0), State: fill32(1), Body: fill32(1)}}},
+						// the same batches with the domain under test NOT in the first position
+						{Kind: KAttests, Client: "client1", IP: src, Addrs: []Addr{g.addrFor(b), g.addrFor(a)},
+							Atts: []AttData{{Dom: mkDomain(domAttester, 2), BBR: fill32(1), Src: &Checkpoint{epoch + 1, fill32(0)}, Tgt: &Checkpoint{epoch + 2, fill32(1)}},
+								{Dom: dom, BBR: fill32(1), Src: &Checkpoint{epoch + 1, fill32(0)}, Tgt: &Checkpoint{epoch + 2, fill32(1)}}}},
+						{Kind: KMultisign, Client: "client1", IP: src, Addrs: []Addr{g.addrFor(b), g.addrFor(a)},
+							Signs: []SignData{{Dom: mkDomain(domRandao, 1), Data: rng.Bytes(32)}, {Dom: dom, Data: rng.Bytes(32)}}},
 					}
+					epoch++
 					epoch++
 					for i, op := range ops {
 						rec, err := run.execStep(inst, li, i, op)
